@@ -556,7 +556,7 @@ fn de_case() -> impl Strategy<Value = DeCase> {
 pub fn c21(ctx: &mut Ctx) {
     crate::fuzz_api::replay_raw_saved(ctx);
     ctx.rule = "valid encodings of every C20 type mutated by: truncation at a generated offset, overwriting 8 bytes at a generated offset with a boundary length (len+-1, 2^31, 2^32+1, 2^56, 2^63, u64::MAX, u64::MAX-7, u64::MAX/8, remaining, remaining+1, 0), setting a byte (0, 255, random; reaches enum variant bytes), flipping a bit, appending junk, filling a run of 1..24 bytes with 0xff/0x00/0x80 (several adjacent fields at a boundary at once), overwriting a 32-bit field with boundary values (10^9-1, 10^9, 2^31, u32::MAX), optionally followed by one or two further mutations; plus random byte strings of 0..512 bytes. Every input is fed to the deserializer of its own type and to one other generated type out of 54 (all built-in and derived deserializers and the typed conversions of byte-array values: Vec<i64|u64|f64|String|bool|derived value types|SystemTime|SocketAddr>::try_from(DbValue::Bytes)). Cases run in isolated child processes with a 64 MiB single-allocation cap. Oracle: every call returns Ok or Err - no panic, abort or enormous allocation request. evaluations = deserializer calls. Non-trivial: the input is a mutated valid encoding. Distinct = hash of the case.".into();
-    let cases = ctx.tier.pick(150_000, 3_000_000);
+    let cases = ctx.tier.pick(150_000, 1_500_000);
     replay_saved::<DeCase, _>(ctx, "c21-deserialize", c21_case);
     run_campaign(ctx, CampaignCfg { name: "c21-deserialize", cases, max_shrink_iters: 1500, max_restarts: 3 }, de_case, c21_case);
 }
